@@ -260,6 +260,11 @@ func (p *cparser) typeName() string {
 			p.i++
 			continue
 		}
+		if t.tok == token.INT && strings.HasSuffix(s, "[") { // array length, e.g. [32]byte
+			s += t.lit
+			p.i++
+			continue
+		}
 		break
 	}
 	t := p.next()
